@@ -10,9 +10,75 @@ from .driver import run_history
 TIERS = {"quick": (48, 400), "thorough": (1600, 1500)}
 
 
+def embedded_workloads():
+    """Workloads in which library components appear EMBEDDED in other library components (name -> run(rec, rnd, cycles, i))."""
+    from ..checks import c14, c18, c19, c28, c32
+    from transactron.lib.metrics import HwMetricsEnabledKey
+    from transactron.utils.dependencies import DependencyContext, DependencyManager
+
+    def measurer(run, mk):
+        def go(rec, rnd, cycles, i):
+            with DependencyContext(DependencyManager()):
+                DependencyContext.get().add_dependency(HwMetricsEnabledKey(), True)
+                run(rec, rnd, cycles, dict(mk(rnd, i), history=i))
+        return go
+
+    def basicfifo(rec, rnd, cycles, i):
+        from .. import passive
+        case, make, klass = c14.pick(rnd, 2 * i)  # BasicFifo (contains a CircularAllocator) under the hostile driver, with and without rival callers
+        run_history(rec, make, rnd, cycles, dict(case, history=i), drain=40, rivals=i % 2 == 1, passive_rec=passive.CURRENT)
+
+    return {
+        "serializer": lambda rec, rnd, cycles, i: c19.run_serializer(rec, rnd, cycles, {"component": "Serializer", "ports": 1 + i % 4, "depth": [1, 2, 3, 4, 8][i % 5], "history": i}),
+        "zipper": lambda rec, rnd, cycles, i: c19.run_zipper(rec, rnd, cycles, {"component": "ArgumentsToResultsZipper", "history": i}),
+        "pipeline": lambda rec, rnd, cycles, i: c28.run_pipeline(rec, rnd, cycles, i, rnd.choice([0.0, 0.03])),
+        "collector": lambda rec, rnd, cycles, i: c18.run_history(rec, "Collector", rnd, cycles, {"transformer": "Collector", "rep": i}),
+        "wide_measurer": measurer(c32.run_wide, lambda rnd, i: (lambda ms, mp: {"measurer": "WideFIFOLatencyMeasurer", "slots": max(ms, mp) * rnd.randint(1, 3), "max_latency": rnd.choice([15, 16, 31, 100]),
+                                                                           "max_start_count": ms, "max_stop_count": mp})(rnd.randint(1, 3), rnd.randint(1, 3))),
+        "fifo_measurer": measurer(c32.run_fifo, lambda rnd, i: {"measurer": "FIFOLatencyMeasurer", "slots": rnd.randint(1, 8), "max_latency": rnd.choice([7, 8, 15, 100]), "ways": rnd.randint(1, 3)}),
+        "basicfifo": basicfifo,
+    }
+
+
+def run_embedded_shard(spec: dict, rec: Rec, pid: str, classes: tuple[str, ...], workloads: tuple[str, ...]):
+    """Second workload of a component check: instances of `classes` embedded in other library components (pipelines, Serializer, zipper, Collector,
+    latency measurers, BasicFifo), watched by the passive monitors of vf/passive.py against the same reference models."""
+    from .. import passive
+    passive.install()
+    wl = embedded_workloads()
+    prec = Rec(pid, rec.shard)
+    passive.ACTIVE[0], passive.CURRENT, passive.ONLY = True, prec, classes
+    try:
+        for i in range(spec["first"], spec["first"] + spec["n"]):
+            name = workloads[i % len(workloads)]
+            rnd = random.Random(f"{pid}:embedded:{spec['seed']}:{i}")
+            host = Rec(pid, rec.shard)
+            try:
+                wl[name](host, rnd, spec["cycles"], i)
+            except Exception as ex:
+                rec.note(f"embedded workload {name} raised {type(ex).__name__}")
+            if host.viol_total:
+                rec.count("foreign_alarm:host_harness:" + name)  # the host's own property is decided by its own check
+            rec.count("embedded_histories:" + name)
+    finally:
+        passive.ACTIVE[0], passive.CURRENT, passive.ONLY = False, None, None
+        passive.REGISTRY.clear()
+    rec.counters.update(prec.counters)
+    for k, v in prec.conds.items():
+        c = rec.conds.setdefault(k, [0, 0, 0])
+        for j in range(3):
+            c[j] += v[j]
+    rec.violations.extend(prec.violations)
+    rec.viol_total += prec.viol_total
+    rec.distinct |= prec.distinct
+    for h in prec.harness_errors:
+        rec.harness_error(h)
+
+
 class ComponentCheck:
-    def __init__(self, pid: str, pick, tiers: dict | None = None, drain: int = 40, per_shard: int | None = None, rivals: bool = True):
-        self.pid, self.pick, self.rivals = pid, pick, rivals
+    def __init__(self, pid: str, pick, tiers: dict | None = None, drain: int = 40, per_shard: int | None = None, rivals: bool = True,
+                 embedded: tuple[tuple[str, ...], tuple[str, ...]] | None = None):
+        self.pid, self.pick, self.rivals, self.embedded = pid, pick, rivals, embedded
         self.tiers = dict(TIERS, **(tiers or {}))
         self.drain = drain
         self.per_shard = per_shard
@@ -20,9 +86,15 @@ class ComponentCheck:
     def shards(self, tier: str, seed: int):
         hist, cycles = self.tiers[tier]
         per = self.per_shard or (3 if tier == "quick" else 10)
-        return [{"seed": seed, "first": i, "n": min(per, hist - i), "cycles": cycles} for i in range(0, hist, per)]
+        out = [{"seed": seed, "first": i, "n": min(per, hist - i), "cycles": cycles} for i in range(0, hist, per)]
+        if self.embedded:
+            nemb = 12 if tier == "quick" else 240
+            out += [{"seed": seed, "embedded": True, "first": i * 3, "n": 3, "cycles": 300 if tier == "quick" else 800} for i in range(nemb)]
+        return out
 
     def run_shard(self, spec: dict, rec: Rec):
+        if spec.get("embedded"):
+            return run_embedded_shard(spec, rec, self.pid, self.embedded[0], self.embedded[1])
         for i in range(spec["first"], spec["first"] + spec["n"]):
             rnd = random.Random(f"{self.pid}:{spec['seed']}:{i}")
             case, make, klass = self.pick(rnd, i)
